@@ -290,6 +290,72 @@ def gen_bytes(fam, rng, per_file: int, every_byte_limit: int, ub_text: int, ub_p
     return cases
 
 
+def gen_abstract(rng) -> Dict[str, Any]:
+    """A random abstract file set near a valid chain (no files involved): exercises the
+    equivalence model <-> declarative oracle far beyond what real histories produce
+    (index ties, predecessor cycles in baseless mode, stubs, several faults at once)."""
+    n = rng.randint(1, 5)
+    idx = sorted(rng.sample(range(8), n))
+    files = []
+    for i in range(n):
+        d = f"d{i}"
+        ext = None
+        mf = None
+        if rng.random() < 0.5:
+            ext = {"stub": i == 0 and rng.random() < 0.2, "id": f"m{i}", "hash": f"h{i}"}
+            mf = [f"m{i}", f"h{i}"]
+        files.append({"st": "ok", "rec": "r1", "idx": idx[i], "pid": f"u{i}", "prev": None if i == 0 else f"u{i - 1}",
+                      "hash": d if (i < n - 1 or rng.random() < 0.5) else None, "ext": ext, "dig": d, "mf": mf})
+    for _ in range(rng.choice([0, 0, 1, 1, 1, 2, 3])):
+        k = rng.randrange(12)
+        f = rng.choice(files)
+        if k == 0:
+            f["rec"] = rng.choice(["r1", "r2"])
+        elif k == 1:
+            f["idx"] = rng.randrange(8)
+        elif k == 2:
+            f["pid"] = f"u{rng.randrange(6)}"
+        elif k == 3:
+            f["prev"] = rng.choice([None] + [f"u{j}" for j in range(6)])
+        elif k == 4:
+            f["hash"] = rng.choice([None, f["dig"], "dx"])
+        elif k == 5:
+            f["dig"] = rng.choice([f["dig"], "dy"])
+        elif k == 6:
+            f["ext"] = rng.choice([None, {"stub": rng.random() < 0.5, "id": "m9", "hash": rng.choice(["h9", f"h{rng.randrange(5)}"])}])
+        elif k == 7:
+            f["mf"] = rng.choice([None, ["m9", rng.choice(["h9", f"h{rng.randrange(5)}"])]])
+        elif k == 8 and len(files) > 1:
+            files.remove(f)
+        elif k == 9:
+            files.append(dict(f))
+        elif k == 10:
+            g = dict(rng.choice(files))
+            g.update(pid="u7", prev=f["pid"], idx=rng.randrange(9), dig="dz", hash=rng.choice([None, "dz"]))
+            files.append(g)
+        elif k == 11 and f["ext"] is not None:
+            f["ext"] = dict(f["ext"], stub=not f["ext"]["stub"])
+    rng.shuffle(files)
+    return {"mfm": rng.random() < 0.5, "bl": rng.random() < 0.25, "files": files}
+
+
+def abstract_sweep(ctx, n) -> Dict[str, Any]:
+    sets = [gen_abstract(ctx.rng) for _ in range(n)]
+    mcases = [reclib.to_model_case(a["mfm"], a["bl"], a["files"])[0] for a in sets]
+    mres = vlib.run_model("c04", mcases)
+    acc = 0
+    for a, mc, m in zip(sets, mcases, mres):
+        coh = reclib.coherent(a["files"], a["mfm"], a["bl"])
+        acc += coh
+        if (m[0] == "ok") != coh:
+            ctx.violation("model open_check and the harness's declarative coherent oracle differ on an abstract file set "
+                          "(contradicts C04_accept_iff: harness or model defect)",
+                          {"kind": "spec-mismatch", "theorem": "C04_accept_iff", "abstract": a, "model_case": mc,
+                           "model": m, "coherent": coh}, found_input=False)
+            break
+    return {"abstract_sets": n, "distinct": len({json.dumps(m) for m in mcases}), "coherent": acc}
+
+
 # ---------------------------------------------------------------------------- main
 
 def _hist(it):
@@ -313,9 +379,16 @@ def run(ctx: vlib.Ctx):
     t0 = time.time()
     with vlib.workdir("c04fx") as fx:
         fams = vlib.pmap(w_family, [(str(fx / f"fam{i}"), ctx.seed * 131 + i) for i in range(nfam)])
-        for f in fams:
-            if "error" in f:
-                raise RuntimeError("fixture construction through the real API failed: " + f["error"])
+        broken = [f["error"] for f in fams if "error" in f]
+        if broken:
+            # a record written by the API could not be continued / reopened by the API itself
+            ctx.violation("valid records could not be produced through the real API (a coherent set written by the "
+                          "implementation was refused, or writing failed): " + broken[0],
+                          {"kind": "fixtures", "correspondence": "reclib.build_family: IH5Record / IH5MFRecord "
+                           "create, patch, commit, reopen 'r+', fork by copy, create_stub", "errors": broken},
+                          found_input=False)
+            proof_report(ctx, proof)
+            return
         cases: List[Dict[str, Any]] = []
         for i, f in enumerate(fams):
             cases += gen_structural(f, ctx.rng, ctx.quick and i > 0)
@@ -332,11 +405,16 @@ def run(ctx: vlib.Ctx):
         vlib.log(f"c04: fixtures+generation {t1 - t0:.1f}s, {len(cases)} cases opened in {t2 - t1:.1f}s, "
                  f"model+analysis {time.time() - t2:.1f}s")
     cov.update(stats)
+    cov["oracle_vs_model_abstract_sweep"] = abstract_sweep(ctx, ctx.budget(20000, 200000))
     ctx.assumptions += [
         "digests are collision-free on the compared payloads and manifests (Section hypotheses H_inj / Hm_inj)",
         "the newest container may be uncommitted; its payload is then not protected (property speaks of committed payloads)",
         "IH5MFRecord checks the sidecar manifest of the newest container only (the manifests of older containers are not part of the opened set)",
     ]
+    proof_report(ctx, proof)
+
+
+def proof_report(ctx, proof):
     if not proof["ok"]:
         ctx.violation("proof obligations of Properties/C04.v do not check: " + "; ".join(proof["problems"])[:500],
                       {"kind": "proof", "theorem_file": "coq/Properties/C04.v", "problems": proof["problems"]},
@@ -382,7 +460,8 @@ def analyse(ctx, cases, results, fams) -> Dict[str, Any]:
             continue
         ok = real[0] == "ok"
         k = c["klass"]
-        st = by_class.setdefault(k, {"n": 0, "accepted": 0, "refused": 0})
+        kk = k + ("/" + c["cls"] if k.startswith("mf:") else "")
+        st = by_class.setdefault(kk, {"n": 0, "accepted": 0, "refused": 0})
         st["n"] += 1
         st["accepted" if ok else "refused"] += 1
         if not ok:
@@ -481,9 +560,10 @@ def analyse(ctx, cases, results, fams) -> Dict[str, Any]:
         ctx.notes.append(f"{len(disagreements)} model/impl disagreements (first: {disagreements[0]})")
 
     # ---- samples / coverage
-    for want in ("subst", "payload:committed", "mf:newest", "ub:prev"):
+    for want in ("subst", "payload:committed", "mf:newest", "ub:prev", "subset", "add"):
         for i, c in enumerate(cases):
-            if c["klass"] == want and i in model_of:
+            if c["klass"] == want and i in model_of and model_of[i][0][0] == "err" and \
+                    (want != "mf:newest" or c["cls"] == "IH5MFRecord"):
                 ctx.sample({"klass": want, "cls": c["cls"], "roles": [e.get("role") for e in c["files"]],
                             "mutation": [e.get("muts") for e in c["files"] if e.get("muts")],
                             "model_case": model_cases[model_idx.index(i)], "model": model_of[i][0],
